@@ -550,7 +550,7 @@ func runC16(c *Ctx) error {
 			for i := 0; i < nm && len(valid) > 0; i++ {
 				reqs = append(reqs, c16Mutate(rng, valid[rng.Intn(len(valid))]))
 			}
-			// the grammar's order is kept (webhook registrations before queries of the same run would hide state): shuffle lightly
+			// random order: webhook registrations, queries and deletions interleave
 			rng.Shuffle(len(reqs), func(i, j int) { reqs[i], reqs[j] = reqs[j], reqs[i] })
 			for k, q := range reqs {
 				var variants []*c16Request
